@@ -144,6 +144,6 @@ def ps_reference(tokens, inputs, n_out):
             if not okv(v):
                 return None
             st.append(v)
-    if len(st) != n_out:
+    if n_out is not None and len(st) != n_out:
         raise PsError("result count")
     return st
